@@ -9,8 +9,8 @@ PROPS = os.path.join(VERIF, "lean", "Scc", "Props")
 FILES = {
     "C02": [("C02", ["Scc.Fun2Core.Model", "Scc.Fun2Core.Hygiene", "Scc.Fun.Sem", "Scc.Core.Sem"]), ("C02Sem", ["Scc.Fun.MainCall"]), ("C02SemSafe", []), ("C02SemFull", []), ("FunSafety", [])],
     "C03": [("C03", ["Scc.Core.Uniquify", "Scc.Core.Focus", "Scc.Core.Sem", "Scc.Core.Unique"])],
-    "C04": [("C04", ["Scc.Core2AxCut.Model", "Scc.Core2AxCut.FsTyping", "Scc.AxCut.SemNamed", "Scc.AxCut.TypingNamed"]), ("C04Sem", [])],
-    "C05": [("C05", ["Scc.AxCut.Linearize", "Scc.AxCut.SemPos", "Scc.AxCut.LinTyping"])],
+    "C04": [("C04", ["Scc.Core2AxCut.Model", "Scc.Core2AxCut.FsTyping", "Scc.AxCut.SemNamed", "Scc.AxCut.TypingNamed"]), ("C04Sem", []), ("C04Strong", [])],
+    "C05": [("C05", ["Scc.AxCut.Linearize", "Scc.AxCut.SemPos", "Scc.AxCut.LinTyping"]), ("C05Strong", [])],
     "C06": [("C06Generic", ["Scc.Backend.Generic", "Scc.Backend.Mock", "Scc.Backend.AbstractMachine"]), ("C06X86", ["Scc.X86.Backend", "Scc.X86.Machine"]), ("C06X86Heap", []), ("C06X86Full", []), ("C09Refine", [])],
     "C07": [("C06Generic", ["Scc.Backend.Generic"]), ("C07A64", ["Scc.A64.Backend", "Scc.A64.Machine"]), ("C07A64Int", []), ("C07A64Heap", []), ("C07A64Full", [])],
     "C08": [("C06Generic", ["Scc.Backend.Generic"]), ("C08RV", ["Scc.RV.Backend", "Scc.RV.Machine"]), ("C08RVInt", []), ("C08RVHeap", []), ("C08RVClo", [])],
